@@ -153,6 +153,12 @@ func Run(sc *bw.Scenario) *simkit.Outcome {
 		for k := range sc.Variants {
 			os.MkdirAll(fmt.Sprintf("/w/target%d", k), 0o755)
 		}
+		if sc.TargetVia {
+			if _, err := os.Lstat("/w/tl"); err != nil {
+				os.Symlink(".", "/w/tl")
+			}
+			target = fmt.Sprintf("/w/tl/target%d", vi)
+		}
 		before := simkit.Snapshot(excl...)
 		vr := runVariant(sc, book, vi, w, pkgAddr, regAddrs, target, log, out, states)
 		after := simkit.Snapshot(excl...)
